@@ -123,7 +123,7 @@ def name_of(c):
     return RString([ord("T"), c])
 
 
-def mk_file(I, ir, kind, i, c, crate, file_name, multi):
+def mk_file(I, ir, kind, i, c, crate, file_name, multi, rc=None):
     """ParsedData of one source file, built through the real ParsedData::new / push"""
     L = I.prog.layout
     pd = I.call_static("parser::ParsedData::new", [Agg("language::CrateName", [S(crate)]), S(file_name), multi])
@@ -139,6 +139,9 @@ def mk_file(I, ir, kind, i, c, crate, file_name, multi):
         item = ir.item("Const", ir.const(nm, u32, i))
     elif kind == "R":
         item = ir.item("Struct", ir.struct("H%d" % i, [ir.field("r", ir.simple(nm))]))
+    elif kind == "N":
+        # a struct carrying a type-level serde(rename): original T<c>, emitted as T<rc>
+        item = ir.item("Struct", ir.struct(nm, [ir.field("f%d" % i, u32)], renamed=name_of(rc if rc is not None else c), serde_rename=True))
     cell = [pd]
     I.call_static("parser::ParsedData::push", [Ref(cell, 0), item])
     pd = cell[0]
@@ -148,8 +151,10 @@ def mk_file(I, ir, kind, i, c, crate, file_name, multi):
     return pd
 
 
-def render_file(kind, i, ch):
+def render_file(kind, i, ch, rch=None):
     nm = "T" + ch
+    if kind == "N":
+        return "#[typeshare]\n#[serde(rename = \"T%s\")]\npub struct %s { pub f%d: u32 }\n" % (rch or ch, nm, i)
     if kind == "S":
         return "#[typeshare]\npub struct %s { pub f%d: u32 }\n" % (nm, i)
     if kind == "E":
@@ -175,10 +180,10 @@ def collect(I, files):
     return r.fields[0]
 
 
-def pipeline(I, ir, kinds, chars, order, multi):
+def pipeline(I, ir, kinds, chars, order, multi, rchars=None):
     crate = "a" if multi else ""
     fname = "a.ts" if multi else "out.ts"
-    files = [mk_file(I, ir, kinds[i], i, chars[i], crate, fname, multi) for i in order]
+    files = [mk_file(I, ir, kinds[i], i, chars[i], crate, fname, multi, rc=(rchars[i] if rchars else None)) for i in order]
     if multi:
         # crate b defines every name that can be imported
         fb = [mk_file(I, ir, "S", 10 + j, ord(ch), "b", "b.ts", True) for j, ch in enumerate(ALPHA[:nalpha(len(kinds))])]
@@ -202,12 +207,22 @@ def case_fold(case):
         cs = [z3.BitVec("n%d" % i, 32) for i in range(k)]
         return cs
 
+    def rchars():
+        return [z3.BitVec("r%d" % i, 32) for i in range(k)]
+
     def entry(I):
         cs = chars()
-        for c in cs:
+        rs = rchars()
+        for c in cs + [rs[i] for i in range(k) if kinds[i] == "N"]:
             I.assume(z3.Or([c == ord(x) for x in ALPHA[:nalpha(k)]]))
-        m1, at1 = pipeline(I, ir, kinds, cs, list(range(k)), multi)
-        m2, at2 = pipeline(I, ir, kinds, cs, list(perm), multi)
+        # emitted names of one kind are distinct as well (otherwise the output has two definitions of one name)
+        emitted = [(rs[i] if kinds[i] == "N" else cs[i]) for i in range(k)]
+        for i in range(k):
+            for j in range(i + 1, k):
+                if kinds[i] in "SN" and kinds[j] in "SN":
+                    I.assume(emitted[i] != emitted[j])
+        m1, at1 = pipeline(I, ir, kinds, cs, list(range(k)), multi, rs)
+        m2, at2 = pipeline(I, ir, kinds, cs, list(perm), multi, rs)
         return m1, at1, m2, at2
 
     L = P.layout
@@ -222,7 +237,8 @@ def case_fold(case):
         cs = chars()
         # all defined names pairwise distinct (imports may still collide with definitions)
         defs = [i for i in range(k) if kinds[i] != "R"]
-        dis = [cs[i] != cs[j] for i in defs for j in defs if i < j and kinds[i] == kinds[j]]
+        same = lambda a, b: a == b or (a in "SN" and b in "SN")
+        dis = [cs[i] != cs[j] for i in defs for j in defs if i < j and same(kinds[i], kinds[j])]
         distinct = z3.And(dis) if dis else z3.BoolVal(True)   # items of one kind have pairwise distinct names
 
         def ask(e, fld):
@@ -234,7 +250,8 @@ def case_fold(case):
                 m = I.sat_model(z3.And(z3.Not(e), extra))
                 if m is not None:
                     names = "".join(chr(m.eval(c, model_completion=True).as_long()) for c in cs)
-                    res["violations"].append({"kind": "order-dependent", "field": fld, "names": names, "equal_names": tie})
+                    rn = "".join(chr(m.eval(c, model_completion=True).as_long()) for c in rchars())
+                    res["violations"].append({"kind": "order-dependent", "field": fld, "names": names, "renames": rn, "equal_names": tie})
                     return
         for (c1, p1), (c2, p2) in zip(m1.entries, m2.entries):
             for fld in ("structs", "enums", "aliases", "consts", "import_types", "type_names", "file_name", "crate_name", "multi_file"):
@@ -394,7 +411,7 @@ def run(rep, tier, only=None):
     t0 = time.time()
     cases = []
     for multi in (False, True):
-        kinds = "SEAC" + ("R" if multi else "")
+        kinds = "SEACN" + ("R" if multi else "")
         for k in (2, 3) + ((4,) if tier == "thorough" else ()):
             for ms in multisets(kinds, k):
                 for perm in itertools.permutations(range(k)):
@@ -503,8 +520,9 @@ def native(gname, case, v):
         if gname == "fold":
             kinds, perm, multi = case
             names = v.get("names") or "A" * len(kinds)
-            texts = [render_file(kinds[i], i, names[i]) for i in range(len(kinds))]
-            return native_fold(d, texts, multi, {"op": "fold", "kinds": "".join(kinds), "names": names, "multi": multi})
+            rn = v.get("renames") or names
+            texts = [render_file(kinds[i], i, names[i], rn[i]) for i in range(len(kinds))]
+            return native_fold(d, texts, multi, {"op": "fold", "kinds": "".join(kinds), "names": names, "renames": v.get("renames") or names, "multi": multi})
         if gname == "hash-ws":
             return native_hash_ws(d, case)
         return native_hash(d, case[0], case[1], case[2] if len(case) > 2 else "basic")
@@ -612,7 +630,7 @@ def replay(body):
         if c["op"] == "hash-ws":
             ok, why, _ = native_hash_ws(d, (c["lang"], c["form"], c["position"]))
         elif c["op"] == "fold":
-            texts = [render_file(kd, i, c["names"][i]) for i, kd in enumerate(c["kinds"])]
+            texts = [render_file(kd, i, c["names"][i], (c.get("renames") or c["names"])[i]) for i, kd in enumerate(c["kinds"])]
             ok, why, _ = native_fold(d, texts, c["multi"], c)
         else:
             ok, why, _ = native_hash(d, c["lang"], c["multi"], c.get("tree", "basic"))
